@@ -317,8 +317,54 @@ func runC17(p *core.Prog, r *core.Report) {
 			_, ok := allowLoop[u]
 			r.Check(ok, "C17.R3", "loop/"+u, "a loop without its own bound reachable from validation/planning terminates under a verified precondition", "unbounded loop not in the allow-table", p.Pos(pos[u]))
 		}
+		// a function that is recursive only because it takes part in an allowed recursion (every cycle through it also goes
+		// through an allowed function — e.g. a piece of hashModule extracted into a helper that calls hashModule back) is
+		// covered by the same argument
+		viaAllowed := func(name string) bool {
+			var f *ssa.Function
+			for g := range reach {
+				if core.FuncName(g) == name {
+					f = g
+				}
+			}
+			if f == nil {
+				return false
+			}
+			// cut the allowed functions: f must no longer reach itself
+			seen := map[*ssa.Function]bool{}
+			var dfs func(g *ssa.Function) bool
+			dfs = func(g *ssa.Function) bool {
+				n := cg.Nodes[g]
+				if n == nil {
+					return false
+				}
+				for _, e := range n.Out {
+					c := e.Callee.Func
+					if !core.IsRepo(c) {
+						continue
+					}
+					if _, allowed := allowRec[core.FuncName(c)]; allowed {
+						continue
+					}
+					if c == f {
+						return true
+					}
+					if !seen[c] {
+						seen[c] = true
+						if dfs(c) {
+							return true
+						}
+					}
+				}
+				return false
+			}
+			return !dfs(f)
+		}
 		for _, u := range uniq(recursive) {
 			_, ok := allowRec[u]
+			if !ok {
+				ok = viaAllowed(u)
+			}
 			r.Check(ok, "C17.R3", "recursion/"+u, "recursion reachable from validation/planning is bounded by the acyclic module graph", "recursive function not in the allow-table")
 		}
 		// precondition: NewModuleGraph rejects cycles, and computeGraph calls it (error → return) before staging/hashing
@@ -553,7 +599,16 @@ func runC17(p *core.Prog, r *core.Report) {
 			q := core.PathQuery{Fn: cgf, CutEdge: func(e core.Edge) bool { return containsEdge(nilEdges, e) }}
 			_, reach := q.CanReach(nil, func(x ssa.Instruction) bool {
 				c := core.CalleeOf(x)
-				return c == p.FuncObj(pkgExec, "computeStages") || c == p.FuncObj(pkgExec, "Graph.hashModules")
+				if c == p.FuncObj(pkgExec, "computeStages") || c == p.FuncObj(pkgMani, "ModuleHashes.HashModule") {
+					return true
+				}
+				// hashing through a helper of the package (Graph.hashModules)
+				if ci, ok := x.(ssa.CallInstruction); ok {
+					if h := core.StaticFn(ci.Common()); h != nil && h.Blocks != nil && h.Pkg == cgf.Pkg && len(core.FindInstrs(h, core.IsCallTo(p.FuncObj(pkgMani, "ModuleHashes.HashModule")))) > 0 {
+						return true
+					}
+				}
+				return false
 			})
 			okOrder = len(nilEdges) > 0 && !reach
 		}
